@@ -40,9 +40,18 @@ struct Task {
 pub struct Exec {
     /// tasks the harness keeps from running for now (e.g. a disk write whose completion is held back)
     pub held: std::collections::BTreeSet<usize>,
+    virtual_time: bool,
     // drop order: the captured futures go before the runtime they were created under
     tasks: Vec<Task>,
     rt: tokio::runtime::Runtime,
+}
+
+impl Drop for Exec {
+    fn drop(&mut self) {
+        if self.virtual_time {
+            ant_networking::verif_hooks::remove_virtual_clock();
+        }
+    }
 }
 
 impl Exec {
@@ -53,7 +62,21 @@ impl Exec {
         } else {
             b.enable_time();
         }
-        Exec { held: Default::default(), rt: b.build().expect("runtime"), tasks: vec![] }
+        Exec { held: Default::default(), virtual_time: false, rt: b.build().expect("runtime"), tasks: vec![] }
+    }
+
+    /// An executor whose thread has the hook's virtual clock installed: every `target_arch::sleep` of the code under
+    /// test ends only when the harness moves that clock (`advance`). The clock is removed when the executor is dropped.
+    pub fn new_virtual_time() -> Exec {
+        ant_networking::verif_hooks::install_virtual_clock();
+        let mut e = Exec::new(false);
+        e.virtual_time = true;
+        e
+    }
+
+    /// Move the virtual clock forward by `d`; sleeps that end wake their tasks (which then become runnable).
+    pub fn advance(&self, d: std::time::Duration) -> usize {
+        ant_networking::verif_hooks::advance_virtual_clock(d)
     }
 
     pub fn runtime(&self) -> &tokio::runtime::Runtime {
